@@ -3,6 +3,7 @@ package govc
 import (
 	"context"
 	"fmt"
+	"go/token"
 	"go/types"
 	"os"
 	"sort"
@@ -156,6 +157,34 @@ func (x *Exec) generate() {
 		x.reportSpecErrors(denv, x.TopName, c)
 		flag := x.ghostField(st, c.Name[3:], ov, BoolS)
 		x.VC.AssumeForall([]*Term{ov}, True, Eq(flag, body), "ghostdef")
+	}
+	// structural clauses: nocall f
+	for _, c := range x.Case.Clauses {
+		if c.Kind != "nocall" {
+			continue
+		}
+		found := token.NoPos
+		for _, b := range fn.Blocks {
+			for _, ins := range b.Instrs {
+				var cc *ssa.CallCommon
+				switch v := ins.(type) {
+				case *ssa.Call:
+					cc = &v.Call
+				case *ssa.Defer:
+					cc = &v.Call
+				case *ssa.Go:
+					cc = &v.Call
+				}
+				if cc != nil && x.calleeDisplayName(cc) == c.Text {
+					found = ins.Pos()
+				}
+			}
+		}
+		goal := True
+		if found != token.NoPos {
+			goal = False
+		}
+		x.Oblige("nocall", c.Text+" is not called here", fmt.Sprint(found), found, True, goal, c.Props)
 	}
 	o := x.Oblige("vacuity", "requires satisfiable", "", fn.Pos(), True, True, nil)
 	if o != nil {
